@@ -320,6 +320,14 @@ def fold_static(tree, class_node=None):
                     return ast.copy_location(ast.Delete(targets=[ast.Subscript(value=x, slice=rest[0], ctx=ast.Del())]), node)
                 if nm == "__imul__" and len(rest) == 1 and isinstance(x, ast.Name):
                     return ast.copy_location(ast.AugAssign(target=ast.Name(id=x.id, ctx=ast.Store()), op=ast.Mult(), value=rest[0]), node)
+            # x.__setattr__("name", v[, flag=…]) as a statement is the assignment x.name = v (the class's own __setattr__
+            # runs either way; its optional flags only switch input checks off)
+            if isinstance(c, ast.Call) and isinstance(c.func, ast.Attribute) and c.func.attr == "__setattr__" \
+                    and isinstance(c.func.value, ast.Name) and len(c.args) == 2 and isinstance(c.args[0], ast.Constant) \
+                    and isinstance(c.args[0].value, str) and c.args[0].value.isidentifier() \
+                    and all(k.arg is not None and isinstance(k.value, ast.Constant) for k in c.keywords):
+                tgt = ast.copy_location(ast.Attribute(value=c.func.value, attr=c.args[0].value, ctx=ast.Store()), node)
+                return ast.copy_location(ast.Assign(targets=[tgt], value=c.args[1]), node)
             # operator.setitem(x, i, v) / operator.delitem(x, i) / operator.imul(x, n) as statements
             if isinstance(c, ast.Call) and norm_(c.func) in ("operator.setitem", "setitem") and len(c.args) == 3 and not c.keywords:
                 return ast.copy_location(ast.Assign(
@@ -461,6 +469,91 @@ def fold_constant_tests(fn):
             return node
     X().visit(fn)
     return changed[0]
+
+
+def inline_local_procedures(fn):
+    """in place; number of calls written out. A nested `def g(a, b): <statements>` of fn that returns nothing, binds no
+    local of its own, is not recursive and is only ever called as a statement `g(x, y)` of fn's own blocks: each call reads
+    as g's statements, a constant argument in place of its parameter and any other argument evaluated once into a
+    temporary (`set_input("ram", ram.set_label(…))` -> `_g1_value = ram.set_label(…)`; checks…; `self.ram = _g1_value`)."""
+    done = 0
+    for g in [b for b in fn.body if isinstance(b, ast.FunctionDef)]:
+        if g.decorator_list or g.args.vararg or g.args.kwarg or g.args.kwonlyargs or g.args.defaults:
+            continue
+        inner = [x for b in g.body for x in ast.walk(b)]
+        if any(isinstance(x, (ast.Yield, ast.YieldFrom, ast.Nonlocal, ast.Global, ast.FunctionDef, ast.Lambda)) for x in inner) \
+                or any(isinstance(x, ast.Return) and x.value is not None for x in inner) \
+                or any(isinstance(x, ast.Return) for x in inner) \
+                or any(isinstance(x, ast.Name) and isinstance(x.ctx, ast.Store) for x in inner) \
+                or any(isinstance(x, ast.Name) and x.id == g.name for x in inner):
+            continue
+        uses = [x for x in ast.walk(fn) if isinstance(x, ast.Name) and x.id == g.name and isinstance(x.ctx, ast.Load)]
+        params = [a.arg for a in g.args.args]
+        sites = []
+
+        def scan(stmts):
+            for i, st in enumerate(stmts):
+                if isinstance(st, ast.Expr) and isinstance(st.value, ast.Call) and isinstance(st.value.func, ast.Name) \
+                        and st.value.func.id == g.name:
+                    sites.append((stmts, st))
+                for fld in ("body", "orelse", "finalbody"):
+                    sub = getattr(st, fld, None)
+                    if isinstance(sub, list) and sub and isinstance(sub[0], ast.stmt) and not isinstance(st, (ast.FunctionDef, ast.ClassDef)):
+                        scan(sub)
+                for h in getattr(st, "handlers", []) or []:
+                    scan(h.body)
+        scan(fn.body)
+        if not sites or len(sites) != len(uses):
+            continue
+        ok = all(len(st.value.args) + len(st.value.keywords) == len(params)
+                 and not any(isinstance(a, ast.Starred) for a in st.value.args)
+                 and all(k.arg in params for k in st.value.keywords) for _, st in sites)
+        if not ok:
+            continue
+        # the closure must not read a local of fn that is rebound between its definition and a call … kept simple: the
+        # free names it reads are bound once in fn (or are parameters of fn / globals)
+        sa = single_assignments(fn)
+        fparams = {a.arg for a in fn.args.args + fn.args.kwonlyargs}
+        bound_in_fn = {x.id for x in ast.walk(fn) if isinstance(x, ast.Name) and isinstance(x.ctx, ast.Store)}
+        free = {x.id for x in inner if isinstance(x, ast.Name) and isinstance(x.ctx, ast.Load) and x.id not in params}
+        multi_tuple = {t_.id for n_ in ast.walk(fn) if isinstance(n_, ast.Assign) and len(n_.targets) == 1
+                       and isinstance(n_.targets[0], ast.Tuple) for t_ in n_.targets[0].elts if isinstance(t_, ast.Name)}
+        counts = {}
+        for n_ in ast.walk(fn):
+            if isinstance(n_, ast.Name) and isinstance(n_.ctx, ast.Store):
+                counts[n_.id] = counts.get(n_.id, 0) + 1
+        if any(nm in bound_in_fn and counts.get(nm, 0) != 1 for nm in free):
+            continue
+        for k_, (stmts, st) in enumerate(sites, 1):
+            bind = {}
+            for i, a in enumerate(st.value.args):
+                bind[params[i]] = a
+            for k in st.value.keywords:
+                bind[k.arg] = k.value
+            pre, m = [], {}
+            for pn in params:
+                a = bind[pn]
+                if isinstance(a, (ast.Constant, ast.Name)):
+                    m[pn] = a
+                else:
+                    tmp = f"_{g.name}{k_}_{pn}"
+                    pre.append(ast.copy_location(ast.Assign(targets=[ast.Name(id=tmp, ctx=ast.Store())], value=a), st))
+                    m[pn] = ast.Name(id=tmp, ctx=ast.Load())
+            body = [substitute_stmt(b, m) for b in g.body if not (isinstance(b, ast.Expr) and isinstance(b.value, ast.Constant))]
+            for b in body:
+                for x in ast.walk(b):
+                    if isinstance(x, (ast.expr, ast.stmt)):
+                        ast.copy_location(x, st)
+            idx = next(i for i, y in enumerate(stmts) if y is st)
+            stmts[idx:idx + 1] = pre + body
+            done += 1
+        fn.body = [b for b in fn.body if b is not g] or [ast.Pass()]
+    if done:
+        fold_static(fn)
+        for n in ast.walk(fn):
+            for ch in ast.iter_child_nodes(n):
+                ch._parent = n
+    return done
 
 
 def _guards_to_ifs(body):
